@@ -163,7 +163,9 @@ def gen_module(rng):
         if rng.random() < 0.35:
             # characters that str.splitlines() treats as line boundaries but the Python tokenizer does not: a form feed on a line of
             # its own (a page break), separators inside comments and string literals.  They do not end a line of the file
-            src += [rng.choice(['\x0c', '# page\x0cbreak', '# sep \u2028 inside a comment', 'SEP%d = "a\x1cb\x85c"' % j, '\x0c# after a form feed', '# vt \x0b tab'])]
+            src += [rng.choice(['\x0c', '# page\x0cbreak', '# sep \u2028 inside a comment', 'SEP%d = "a\x1cb\x85c"' % j, '\x0c# after a form feed', '# vt \x0b tab',
+                               # ... and the one character that DOES end a line although it is not a newline: a bare carriage return
+                               '# a line an old Mac editor ended\rMAC%d = 1' % j, 'CR%d = 0\r' % j])]
         expectations.append((('K%d.' % j if in_class else '') + 'f%d' % j, fail, stm, style))
     src.insert(0, 'def deco(f):\n    return f\n')
     text = '\n'.join(src) + '\n'
@@ -228,7 +230,7 @@ def _worker(job):
     modname = 'xdverif_c08_m%d' % idx
     path = os.path.join(tmp, modname + '.py')
     open(path, 'w').write(src)
-    flines = src.split('\n')
+    flines = re.split('\r\n|\r|\n', src)       # the lines of the file as Python and editors count them
     problems = []
     reqs = []
     checks = []
@@ -240,6 +242,9 @@ def _worker(job):
             sys.stdout = open(os.devnull, 'w')
             try:
                 exs = list(core.parse_doctestables(path, style=style, analysis='static'))
+            except Exception as e:      # noqa
+                problems.append('collecting the doctests of the module (%s style) raised %s: %s' % (style, type(e).__name__, str(e)[:200]))
+                exs = []
             finally:
                 sys.stdout.close()
                 sys.stdout = so
@@ -258,7 +263,11 @@ def _worker(job):
     import ast
     tree = ast.parse(src)
     vis = static_analysis.TopLevelVisitor.__new__(static_analysis.TopLevelVisitor)
-    calldefs = static_analysis.parse_static_calldefs(fpath=path)
+    try:
+        calldefs = static_analysis.parse_static_calldefs(fpath=path)
+    except Exception as e:      # noqa
+        problems.append('the static analysis of the module raised %s: %s' % (type(e).__name__, str(e)[:200]))
+        return dict(src=src, problems=problems, reqs=reqs, checks=checks, gen_seed=seed)
     for node in ast.walk(tree):
         if isinstance(node, (ast.FunctionDef,)) and ast.get_docstring(node, clean=False) is not None and node.name.startswith('f'):
             docnode = node.body[0]
@@ -279,7 +288,7 @@ def _worker(job):
             if start + 1 != docnode.lineno:
                 problems.append('docstring of %s reported to start on line %d, the literal opens on line %d' % (node.name, start + 1, docnode.lineno))
     sys.modules.pop(modname, None)
-    return dict(src=src, problems=problems, reqs=reqs, checks=checks)
+    return dict(src=src, problems=problems, reqs=reqs, checks=checks, gen_seed=seed)
 
 
 def run(ctx):
@@ -311,7 +320,7 @@ def run(ctx):
                                       'module_source': r['src'], 'theorem_or_correspondence': 'correspondence find_docstr_start (feeds C08_docstring_start)'}, bool(r['problems']))
             if r['problems'] and nv['p'] < 5:
                 nv['p'] += 1
-                ctx.violation('line-numbers', {'what': '; '.join(r['problems'])[:1800], 'module_source': r['src'],
+                ctx.violation('line-numbers', {'what': '; '.join(r['problems'])[:1800], 'module_source': r['src'], 'gen_seed': r.get('gen_seed'),
                               'theorem_or_correspondence': 'C08: the file read at the reported lines'}, True)
         ctx.count('generated layouts that are not valid modules (skipped)', bad_gen)
     finally:
@@ -329,15 +338,32 @@ def replay(path):
     d = json.load(open(path))
     tmp = tempfile.mkdtemp(prefix='xdverif_c08r_')
     try:
+        if d.get('kind') == 'line-numbers' and d.get('gen_seed') is not None:
+            # the module is regenerated from its seed (with the planted failures and their lines) and judged as in the check
+            r = _worker((tmp, 0, d['gen_seed']))
+            if r.get('src') != d['module_source']:
+                print('(the generator has changed since this replay was written; judging the recorded module by its part offsets only)')
+            else:
+                for pr in r['problems']:
+                    print(pr)
+                if r['problems']:
+                    print('VIOLATION property=C08 replay=%s' % path)
+                    return 1
+                print('every reported line of the module holds the text it is reported for')
+                return 0
         from xdoctest import core
         p = os.path.join(tmp, 'xdverif_c08_replay.py')
         open(p, 'w').write(d['module_source'])
-        flines = d['module_source'].split('\n')
+        flines = re.split('\r\n|\r|\n', d['module_source'])
         bad = False
         for style in ('freeform', 'google'):
             with warnings.catch_warnings():
                 warnings.simplefilter('ignore')
-                exs = list(core.parse_doctestables(p, style=style, analysis='static'))
+                try:
+                    exs = list(core.parse_doctestables(p, style=style, analysis='static'))
+                except Exception as e:      # noqa
+                    print(style, 'collecting the doctests raised %s: %s' % (type(e).__name__, e))
+                    bad, exs = True, []
             for ex in exs:
                 for part in ex._parts:
                     n = ex.lineno + part.line_offset
